@@ -107,10 +107,42 @@ class Plan:
         self.valgrind = False
         self.native_args = []
         self.release_too = False
+        # scenario used for the Miri build-and-smoke run
+        self.smoke_scenario = "sw_u8"
+        # additional builds of the harness with other cargo feature sets of the
+        # runtime: [{"tag", "features": [...], "shards", "args": [...], "tiers": (...)}]
+        self.feature_passes = []
+        self.valgrind_args = ["--random", "300", "--max-exhaustive", "400", "--depth", "5"]
+        self.asan_args = ["--random", "1500", "--max-exhaustive", "3000", "--depth", "6"]
+        self.miri = True
+        self.plain_pass_in_thorough = True
 
 
 def build(plan, rep, release=False):
     return vcommon.cargo_build(ENGINE, bins=[plan.bin], release=release, timeout=1500)
+
+
+DEFAULT_FEATURES = ["async-spawn", "inter-task-wakeup", "futures-stream"]
+
+
+def feature_args(feats):
+    """cargo arguments selecting exactly the given rt-host features"""
+    a = ["--no-default-features"]
+    if feats:
+        a += ["--features", ",".join(feats)]
+    return a
+
+
+def variant_tag(feats):
+    return "plain" if not feats else "+".join(sorted(feats))
+
+
+def build_variant(plan, feats):
+    """Build the harness with another feature set in its own target directory
+    (so that the builds can run side by side and each stays incremental)."""
+    tdir = os.path.join(vcommon.TARGET, "rthost-" + variant_tag(feats))
+    vcommon.cargo_build(ENGINE, bins=[plan.bin], extra_args=feature_args(feats), env_extra={"CARGO_TARGET_DIR": tdir}, timeout=1800)
+    return os.path.join(tdir, "debug")
 
 
 def native_shards(plan, rep, bindir, tier, seed, scratch, tag, extra=None):
@@ -159,7 +191,7 @@ def miri_shards(plan, rep, tier, seed, scratch):
     # build once (and smoke-run) so that the parallel runs do not queue on the build lock
     t0 = time.time()
     out0 = os.path.join(scratch, "miri_smoke.json")
-    rc, so, se = _run(base + ["--seed", str(seed), "--random", "1", "--max-exhaustive", "0", "--scenario", "sw_u8", "--out", out0], 900, env=env, cwd=vcommon.CRATES)
+    rc, so, se = _run(base + ["--seed", str(seed), "--random", "1", "--max-exhaustive", "0", "--scenario", plan.smoke_scenario, "--out", out0], 900, env=env, cwd=vcommon.CRATES)
     if rc != 0 and not os.path.exists(out0):
         rep.inconc("miri: build or smoke run failed (rc=%s): %s" % (rc, (se or "")[-400:]))
         return
@@ -222,7 +254,7 @@ def valgrind_shard(plan, rep, tier, seed, scratch, bindir_release):
     out = os.path.join(scratch, "vg.json")
     log = os.path.join(scratch, "vg.log")
     env = vcommon.base_env({"RT_HOST_ANNOUNCE": "1"})
-    cmd = ["valgrind", "--error-exitcode=9", "--leak-check=no", "--log-fd=2", "-q", exe, "--seed", str(seed + 77), "--random", "300", "--max-exhaustive", "400", "--depth", "5", "--out", out]
+    cmd = ["valgrind", "--error-exitcode=9", "--leak-check=no", "--log-fd=2", "-q", exe, "--seed", str(seed + 77)] + plan.valgrind_args + ["--out", out]
     rc, so, se = _run(cmd, 1500, env=env)
     try:
         with open(out) as f:
@@ -262,7 +294,7 @@ def asan_shard(plan, rep, tier, seed, scratch):
     exe = os.path.join(vcommon.TARGET, "x86_64-unknown-linux-gnu", "debug", plan.bin)
     out = os.path.join(scratch, "asan.json")
     env = vcommon.base_env({"ASAN_OPTIONS": "detect_leaks=0:abort_on_error=0", "RT_HOST_ANNOUNCE": "1"})
-    rc, so, se = _run([exe, "--seed", str(seed + 99), "--random", "1500", "--max-exhaustive", "3000", "--depth", "6", "--out", out], 1500, env=env)
+    rc, so, se = _run([exe, "--seed", str(seed + 99)] + plan.asan_args + ["--out", out], 1500, env=env)
     data = None
     try:
         with open(out) as f:
@@ -301,7 +333,7 @@ def confirm(plan, rep, bindir, scratch):
             continue
         seen.add(sig)
         rp = v.get("replay") or {}
-        if rp.get("tool"):
+        if rp.get("tool") or v.get("_confirmed"):
             kept.append(v)
             continue
         path = os.path.join(scratch, "confirm_%s.json" % vcommon.stable_hash(sig))
@@ -316,8 +348,10 @@ def confirm(plan, rep, bindir, scratch):
         except Exception:
             pass
         if sig in again:
+            v["_confirmed"] = True
             kept.append(v)
         elif sig.startswith("crash:") and rc not in (0, None) and _crash_line(se or ""):
+            v["_confirmed"] = True
             kept.append(v)
         else:
             rep.inconc("violation `%s` did not reproduce when replayed in a fresh process (suspected cross-execution contamination)" % sig)
@@ -368,25 +402,53 @@ def run(prop, binname, tier, seed, replay_doc, rule, tune=None):
         tune(plan, tier)
     scratch = vcommon.scratch_dir(prop.lower())
     try:
-        if tier == "thorough" and replay_doc is None and not os.environ.get("RTHOST_SKIP_PLAIN"):
+        if tier == "thorough" and replay_doc is None and plan.plain_pass_in_thorough and not os.environ.get("RTHOST_SKIP_PLAIN"):
             # the runtime without async-spawn / inter-task-wakeup / futures-stream
             plain = vcommon.cargo_build(ENGINE, bins=[plan.bin], extra_args=["--no-default-features"], timeout=1500)
             native_shards(plan, rep, plain, "quick", seed + 2, scratch, "plain-features")
             confirm(plan, rep, plain, scratch)
             rep.extra["plain_feature_executions"] = rep.evaluations
-        bindir = build(plan, rep)
         if replay_doc is not None:
-            replay(plan, rep, replay_doc, bindir, scratch)
+            rp = replay_doc.get("replay", replay_doc)
+            feats = rp.get("features")
+            if isinstance(feats, list) and not rp.get("tool"):
+                feats = [f for f in feats if f in DEFAULT_FEATURES]
+                if sorted(feats) != sorted(DEFAULT_FEATURES):
+                    replay(plan, rep, replay_doc, build_variant(plan, feats), scratch)
+                    return rep
+            replay(plan, rep, replay_doc, build(plan, rep), scratch)
             return rep
+        # other feature sets of the runtime: built side by side with the main build
+        passes = [p for p in plan.feature_passes if tier in p.get("tiers", ("quick", "thorough"))]
+        pool = concurrent.futures.ThreadPoolExecutor(max_workers=max(1, len(passes)))
+        variant_builds = [(p, pool.submit(build_variant, plan, p["features"])) for p in passes]
+        bindir = build(plan, rep)
         t0 = time.time()
         with concurrent.futures.ThreadPoolExecutor(max_workers=2) as ex:
             fut_native = ex.submit(native_shards, plan, rep, bindir, tier, seed, scratch, "dev")
             # RTHOST_SKIP_MIRI: development knob (sensitivity experiments), never set by ./check users
-            fut_miri = ex.submit((lambda *a: None) if os.environ.get("RTHOST_SKIP_MIRI") else miri_shards, plan, rep, tier, seed, scratch)
+            fut_miri = ex.submit((lambda *a: None) if (os.environ.get("RTHOST_SKIP_MIRI") or not plan.miri) else miri_shards, plan, rep, tier, seed, scratch)
             fut_native.result()
             rep.extra["native_wall_s"] = round(time.time() - t0, 1)
             fut_miri.result()
             rep.extra["miri_wall_s"] = round(time.time() - t0, 1)
+        confirm(plan, rep, bindir, scratch)
+        for k, (p, fut) in enumerate(variant_builds):
+            try:
+                vdir = fut.result()
+            except vcommon.HarnessFailure as e:
+                rep.inconc("feature pass %s: build failed: %s" % (p["tag"], str(e)[-300:]))
+                continue
+            before = rep.evaluations
+            saved = plan.native_shards
+            plan.native_shards = p.get("shards", 4)
+            try:
+                native_shards(plan, rep, vdir, tier, seed + 10 + k, scratch, "features-" + p["tag"], extra=p.get("args"))
+            finally:
+                plan.native_shards = saved
+            confirm(plan, rep, vdir, scratch)
+            rep.extra["executions_features_%s" % p["tag"]] = rep.evaluations - before
+        pool.shutdown(wait=False)
         if tier == "thorough":
             native_shards(plan, rep, bindir, "quick", seed + 3, scratch, "reuse-handles", extra=["--reuse", "1", "--max-exhaustive", "0"])
         if plan.release_too:
@@ -401,6 +463,8 @@ def run(prop, binname, tier, seed, replay_doc, rule, tune=None):
         for i in rep.inconclusive:
             merged[i.get("why")] = merged.get(i.get("why"), 0) + int(i.get("count", 1))
         rep.inconclusive = [{"why": k, "count": v} for k, v in merged.items()]
+        for v in rep.violations:
+            v.pop("_confirmed", None)
         rep.assumptions += [
             "the mock host (crates/rt-host/src/host.rs) is the runtime's environment: its stream/future rendezvous, event and trap rules are written from the Component Model canonical ABI (DESIGN.md 2.4); a behaviour a real host has but the mock lacks is not explored",
             "Miri runs with -Zmiri-disable-stacked-borrows -Zmiri-permissive-provenance (aliasing model off by design); shards that include host-cancelled tasks run with -Zmiri-ignore-leaks and rely on the harness allocator ledger for leaks",
